@@ -51,6 +51,9 @@ pub enum OpKind {
     /// a metadata-trait call (SimMetadata) or a pause point
     Meta,
     Pause,
+    /// delivery of a read's response (only with `set_late_responses`): the read took effect when
+    /// its request was served; its answer reaches the caller when this is released
+    Resp,
 }
 
 impl OpKind {
@@ -155,6 +158,7 @@ struct State {
     node_seq: BTreeMap<u32, u64>,
     effect_seq: u64,
     served: u64,
+    late_responses: bool,
     /// free-running fault plan: (global ordinal among *counted* requests, decision)
     fault_plan: BTreeMap<u64, Decision>,
     /// ordinal counter for the fault plan (counts only requests matching `fault_filter_node`)
@@ -192,6 +196,12 @@ impl SimCore {
 
     pub fn node(self: &Arc<Self>, node: u32) -> Arc<NodeStore> {
         Arc::new(NodeStore { node, core: self.clone() })
+    }
+
+    /// Reads of catalog-like objects (GET of *.json) answer in two steps: effect when served,
+    /// delivery as a separate schedulable event - a response that arrives late.
+    pub fn set_late_responses(&self, on: bool) {
+        self.st.lock().late_responses = on;
     }
 
     pub fn set_scheduled(&self, on: bool) {
@@ -692,7 +702,8 @@ impl ObjectStore for NodeStore {
             }
             (OpKind::Get, d)
         };
-        self.request(self.desc(op, location, detail), |_id| {
+        let op_is_get = op == OpKind::Get;
+        let res = self.request(self.desc(op, location, detail), |_id| {
             let entry = self.entry(location)?;
             let meta = ObjectMeta { location: location.clone(), last_modified: entry.last_modified, size: entry.data.len(), e_tag: Some(entry.e_tag.to_string()), version: None };
             check_preconditions(&options, &meta)?;
@@ -706,7 +717,12 @@ impl ObjectStore for NodeStore {
             let stream = futures::stream::once(futures::future::ready(Ok(data)));
             Ok((GetResult { payload: GetResultPayload::Stream(stream.boxed()), attributes: entry.attributes, meta, range }, 0))
         })
-        .await
+        .await;
+        if op_is_get && res.is_ok() && location.as_ref().ends_with(".json") && self.core.st.lock().late_responses {
+            let (id, _d) = self.core.gate(ReqDesc { node: self.node, op: OpKind::Resp, path: location.to_string(), detail: "response".into() }).await;
+            self.core.finish(id, "ok", 0);
+        }
+        res
     }
 
     async fn get_ranges(&self, location: &Path, ranges: &[Range<usize>]) -> OsResult<Vec<Bytes>> {
